@@ -55,11 +55,25 @@ pub enum IngressVerdict {
 /// Runs the gateway's real ingress check and, on rejection, the real SCMP error builder into a
 /// buffer obtained from a pool of the gateway's buffer size.
 pub fn ingress(datagram: &[u8], peer: IpAddr, local_addr: ScionHostAddr) -> IngressVerdict {
+    ingress_into_recycled(datagram, peer, local_addr, None)
+}
+
+/// Like [`ingress`], but the SCMP error is built in a pool buffer that was used before and still
+/// holds `stale` in every byte (the gateway's pool recycles buffers without zeroing them).
+pub fn ingress_into_recycled(
+    datagram: &[u8],
+    peer: IpAddr,
+    local_addr: ScionHostAddr,
+    stale: Option<u8>,
+) -> IngressVerdict {
     match inbound_datagram_check(datagram, peer) {
         Ok(_view) => IngressVerdict::Dispatch,
         Err(e) => {
             let pool = gateway::PacketPool::new(1);
             let mut target_buf = pool.get();
+            if let Some(stale) = stale {
+                target_buf[..].fill(stale);
+            }
             match gateway::verif_create_scmp_error::<NoAuthz, NoDispatch, NoopTunnelGatewayObserver>(
                 e,
                 local_addr,
